@@ -20,6 +20,9 @@ CHECKS["C16"] = dict(level="other", design="4/C16",
 CHECKS["C09"] = dict(level="other", design="4/C09",
    text="Solver-decided construction + inductive step: initial collections of length<=L (int / real / mixed families, repeats, empty) give strictly ascending iteration with set()/dict() content (later pair wins; Mapping and pairs forms); from every strictly ascending state of size<=L each SortedSet/SortedMap operation with a symbolic number matches a sorted-list model and the storage invariant; foreign probes ('x', None, (1,)) report absent and leave the structure unchanged.",
    note="Trusted: CrossHair+z3; floats as finite reals (NaN/inf outside the claim); PairsMapping stub for the Mapping initialiser. Bounds: L=4 quick / 5 thorough.")
+CHECKS["C10"] = dict(level="other", design="4/C10",
+   text="Solver-decided total-function check: for every ordered pair of the four relations, every |A|,|B|<=S and every operator/predicate group, span ends are unbounded symbolic numbers; construction (pairs, generator, starts/ends, force_no_dup_check), membership, &,|,-,^ and the nine predicates equal an independent evaluation of their membership-based definitions on every path.",
+   note="Trusted: CrossHair+z3; harness reference model (20 lines). Bounds: S=2 quick (ints); thorough adds S=3 for &,|,-,^,<= and a real-number family at S=2.")
 NOT_YET = {}
 def main():
     props = [json.loads(l)["id"] for l in open(os.path.join(ROOT, "properties.jsonl"))]
